@@ -21,11 +21,12 @@ META = {
     "(every field TAG:TYPE:VALUE per utils.tag_regex).",
     "bounds": {"quick": "n<=2 records x TSV status menu (5) x strand x path form; 3-record stream",
                "thorough": "all 25 status pairs for n=2 on both strands"},
-    "out": ["n > 3", "TSV lines with fewer than 4 columns", "read names containing spaces"],
-    "assumptions": ["GAF reader stub yields Alignment objects (parsing is C16)", "open() model file system; output inspected "
+    "out": ["n > 3", "TSV lines with fewer than 4 columns", "read names outside the parsed/* menus (blank-separated comments, '@' prefix, six special characters)"],
+    "assumptions": ["n1/n2/n3 harnesses: GAF reader stub yields Alignment objects; parsed/* harnesses go through the real reader", "open() model file system; output inspected "
                     "as written (file need not be closed)"],
 }
 META["explanation"] += '  parsed/*: the third read name holds a solver-chosen character (none, 0x1f, NBSP, VT, |, %) and the TSV also lists the name cut at that character with another haplotype.'
+META["explanation"] += "  One read name starts with '@'; parsed/text/no-final-newline."
 
 STATUS = ["H1", "H2", "none", "absent", "twice"]
 TAGMENU = [
@@ -78,7 +79,7 @@ def harnesses(tier):
 
 
 PARSED_LINES = [
-    "p0\t50\t0\t10\t-\t>s1<s2\t25\t2\t12\t9\t10\t60\ttp:A:S\tNM:i:-1\tcg:Z:5=1X4=\n",
+    "@p0\t50\t0\t10\t-\t>s1<s2\t25\t2\t12\t9\t10\t60\ttp:A:S\tNM:i:-1\tcg:Z:5=1X4=\n",
     "p1 trailing words\t50\t0\t10\t+\tchr1\t30\t0\t10\t10\t10\t0\ttp:A:P\tzd:Z:a b:c\n",
     "p2\t50\t3\t13\t+\t<chr1:10-25\t15\t1\t11\t8\t10\t60\ttp:A:I\tcg:Z:4=2D4=\tdv:f:-.5e-3\n",
 ]
@@ -95,7 +96,7 @@ def parsed_setup(sel, ch):
     lines = list(PARSED_LINES)
     n2 = "p2" + ch + ("x" if ch else "")
     lines[2] = n2 + lines[2][2:]
-    names = ["p0", "p1", n2]
+    names = ["@p0", "p1", n2]  # a name copied from a FASTQ header keeps its '@'
     tsv = []
     if ch:
         tsv.append("p2\tH2\t5\tchrX\n")
@@ -146,7 +147,7 @@ def build_parsed(params):
         flines = lines[:-1] + [lines[-1].rstrip("\n")] if params.get("nonl") else lines
         e.files["in.gaf"] = stubs.MFile("bgzf" if params["gz"] else "text", flines, None)
         # an earlier call in the same process with another haplotag file must not influence this one
-        e.files["h0.tsv"] = stubs.MFile("text", ["p0\tH2\t5\tchrX\n", "p1\tH2\t5\tchrX\n", "%s\tH2\t5\tchrX\n" % names[2]], None)
+        e.files["h0.tsv"] = stubs.MFile("text", ["@p0\tH2\t5\tchrX\n", "p1\tH2\t5\tchrX\n", "%s\tH2\t5\tchrX\n" % names[2]], None)
         P.add_phase_info("in.gaf", "h0.tsv", "o0.gaf")
         P.add_phase_info("in.gaf", "h.tsv", "o.gaf")
         out = [str(l).rstrip("\n") for l in e.files["o.gaf"].lines]
